@@ -57,3 +57,41 @@ Proof.
   - eapply rdiv_s_sound; eauto.
 Qed.
 Print Assumptions C17_overloads_preserve_values.
+
+(* Optimiser half, per kernel pair: the kernel generated with the passes and the one generated
+   without are executed symbolically; if SymEq.kernels_equiv computes true (done by vm_compute
+   for every exported pair and every admissible entity/permutation value) then, for ALL values of
+   the real inputs and all interpretations of literals, division and math functions over the
+   integers with ring operations, both kernels run and return the same tensor.  A polynomial
+   identity that holds for all integer values holds in every commutative ring. *)
+From Coq Require Import ZArith List String.
+From FFCX Require Import LN Sym SymEq.
+
+Theorem C17_symbolically_equal_kernels_compute_the_same_tensor :
+  forall (of_lit : Z -> Z -> Z) (of_clit : Z -> Z -> Z -> Z -> Z) (tdiv : Z -> Z -> Z)
+         (teqb tltb tleb : Z -> Z -> bool) (tfn : string -> list Z -> Z) (rho : ident -> Z -> Z)
+         (inp : @inputs sx) (k1 k2 : list stmt) (A0 : list (@val sx)),
+    kernels_equiv inp k1 k2 A0 = true ->
+    exists r,
+      @run_kernel Z (fun z => z) of_lit of_clit Z.add Z.sub Z.mul tdiv Z.opp teqb tltb tleb tfn
+        (imap Z (fun z => z) of_lit of_clit Z.add Z.sub Z.mul tdiv Z.opp tfn rho inp) k1
+        (map (vmap Z (fun z => z) of_lit of_clit Z.add Z.sub Z.mul tdiv Z.opp tfn rho) A0) = Some r /\
+      @run_kernel Z (fun z => z) of_lit of_clit Z.add Z.sub Z.mul tdiv Z.opp teqb tltb tleb tfn
+        (imap Z (fun z => z) of_lit of_clit Z.add Z.sub Z.mul tdiv Z.opp tfn rho inp) k2
+        (map (vmap Z (fun z => z) of_lit of_clit Z.add Z.sub Z.mul tdiv Z.opp tfn rho) A0) = Some r.
+Proof. exact kernels_equiv_sound. Qed.
+Print Assumptions C17_symbolically_equal_kernels_compute_the_same_tensor.
+
+(* the symbolic run is faithful in every numeric domain (homomorphism) *)
+Theorem C17_symbolic_execution_is_faithful :
+  forall (T : Type) (of_Z : Z -> T) (of_lit : Z -> Z -> T) (of_clit : Z -> Z -> Z -> Z -> T)
+         (tadd tsub tmul tdiv : T -> T -> T) (tneg : T -> T) (teqb tltb tleb : T -> T -> bool)
+         (tfn : string -> list T -> T) (rho : ident -> Z -> T) inp body A0 r,
+    forallb nobr body = true ->
+    @run_kernel sx SZc SLitc SCLitc SAdd SSub SMul SDiv SNeg s_cmp s_cmp s_cmp s_fn inp body A0 = Some r ->
+    @run_kernel T of_Z of_lit of_clit tadd tsub tmul tdiv tneg teqb tltb tleb tfn
+      (imap T of_Z of_lit of_clit tadd tsub tmul tdiv tneg tfn rho inp) body
+      (map (vmap T of_Z of_lit of_clit tadd tsub tmul tdiv tneg tfn rho) A0)
+    = Some (map (vmap T of_Z of_lit of_clit tadd tsub tmul tdiv tneg tfn rho) r).
+Proof. exact run_hom. Qed.
+Print Assumptions C17_symbolic_execution_is_faithful.
